@@ -66,6 +66,10 @@ MFUS_CLASS_DECLARATION(Listener, Parm, NULL)
     { &EV_Parm_GetOther,                &Parm::GetOther },
     { &EV_Listener_GetOwner,            &Parm::GetOwner },
     { &EV_Parm_GetPreviousThread,        &Parm::GetPreviousThread },
+    // owned by the engine, never deleted by a script
+    { &EV_Delete,                        NULL },
+    { &EV_Remove,                        NULL },
+    { &EV_ScriptRemove,                    NULL },
     { NULL, NULL }
 };
 
